@@ -264,7 +264,7 @@ CLAIMS = {
          "C20_add_bus_days_total, C20_lag_total, C20_lag_i8); add_months for every offset, date and roll day 1..31 / eom / "
          "som / imm / unspecified (C20_add_months_total, using ofDay_bounds); adjustment returns a date whenever an "
          "eligible day is within reach (C20_adjust_total). Every validating constructor returns an error or a value with "
-         "its shape invariants (C20_dual_try_new, C20_dual2_try_new, C20_ccy_try_new, C20_fxpair_try_new, "
+         "its shape invariants (C20_dual_try_new, C20_dual2_try_new, C20_dual_try_new_from, C20_dual2_try_new_from, C20_ccy_try_new, C20_fxpair_try_new, "
          "C20_named_try_new, C20_fxrates_try_new, C20_csolve); a pair is accepted EXACTLY when both codes have three bytes "
          "and differ after lower-casing (C20_fxpair_accepts_iff, C20_fxpair_self_rejected) and a stored currency name is a "
          "fixed point of the constructor (C20_ccy_stored_name_reloads, C20_lower_idempotent). Loading: for EVERY JSON tree the tagged entry point returns "
